@@ -423,46 +423,47 @@ class Collada(object):
 
     def _loadNodes(self):
         libnodes = self.xmlnode.findall(self.tag('library_nodes'))
-        if libnodes is not None:
-            for libnode in libnodes:
-                if libnode is not None:
-                    tried_loading = []
-                    succeeded = False
-                    first = len(self.nodes)
-                    for node in libnode.findall(self.tag('node')):
-                        try:
-                            N = scene.loadNode(self, node, {})
-                        except scene.DaeInstanceNotLoadedError as ex:
-                            tried_loading.append((node, ex))
-                        except DaeError as ex:
-                            self.handleError(ex)
-                        else:
-                            if N is not None:
-                                self.nodes.append(N)
-                                succeeded = True
-                    while len(tried_loading) > 0 and succeeded:
-                        succeeded = False
-                        next_tried = []
-                        for node, ex in tried_loading:
-                            try:
-                                N = scene.loadNode(self, node, {})
-                            except scene.DaeInstanceNotLoadedError as ex:
-                                next_tried.append((node, ex))
-                            except DaeError as ex:
-                                self.handleError(ex)
-                            else:
-                                if N is not None:
-                                    self.nodes.append(N)
-                                    succeeded = True
-                        tried_loading = next_tried
-                    # nodes that had to wait for their instances go back to document order
-                    position = dict((child, i) for i, child in enumerate(libnode))
-                    self.nodes[first:] = sorted(self.nodes[first:], key=lambda n: position[n.xmlnode])
-                    for node, ex in tried_loading:
-                        try:
-                            raise DaeBrokenRefError(ex.msg)
-                        except DaeError as ex:
-                            self.handleError(ex)
+        if libnodes:
+            # the nodes of all <library_nodes> elements may instantiate each other,
+            # whichever element defines them: they are loaded together
+            nodes = [node for libnode in libnodes for node in libnode.findall(self.tag('node'))]
+            tried_loading = []
+            succeeded = False
+            first = len(self.nodes)
+            for node in nodes:
+                try:
+                    N = scene.loadNode(self, node, {})
+                except scene.DaeInstanceNotLoadedError as ex:
+                    tried_loading.append((node, ex))
+                except DaeError as ex:
+                    self.handleError(ex)
+                else:
+                    if N is not None:
+                        self.nodes.append(N)
+                        succeeded = True
+            while len(tried_loading) > 0 and succeeded:
+                succeeded = False
+                next_tried = []
+                for node, ex in tried_loading:
+                    try:
+                        N = scene.loadNode(self, node, {})
+                    except scene.DaeInstanceNotLoadedError as ex:
+                        next_tried.append((node, ex))
+                    except DaeError as ex:
+                        self.handleError(ex)
+                    else:
+                        if N is not None:
+                            self.nodes.append(N)
+                            succeeded = True
+                tried_loading = next_tried
+            # nodes that had to wait for their instances go back to document order
+            position = dict((child, i) for i, child in enumerate(nodes))
+            self.nodes[first:] = sorted(self.nodes[first:], key=lambda n: position[n.xmlnode])
+            for node, ex in tried_loading:
+                try:
+                    raise DaeBrokenRefError(ex.msg)
+                except DaeError as ex:
+                    self.handleError(ex)
 
     def _loadScenes(self):
         """Load scene library."""
